@@ -64,8 +64,8 @@ impl Prop for C06 {
     }
     fn runs(&self, tier: Tier) -> u64 {
         match tier {
-            Tier::Quick => 400_000,
-            Tier::Thorough => 20_000_000,
+            Tier::Quick => 1_200_000,
+            Tier::Thorough => 100_000_000,
         }
     }
     fn run_chunk(&self, ctx: &Ctx, indices: &[u64]) -> Vec<RunReport> {
